@@ -1,7 +1,413 @@
 import NunavutVerif.Model.Regex
 /-!
-Helper lemmas about the regex engine of `Model/Regex.lean` (C09).
+Helper lemmas about the regex engine of `Model/Regex.lean` (C09): what `sub` can and cannot do to a string,
+the two pattern shapes the shipped encoding rules rely on (`[K]+` and `^[K]{1}`), fuel.
 -/
 namespace NunavutVerif.Regex
+
+/-! ### `sub`, any pattern -/
+
+/-- `sub` only copies characters of the subject and inserts replacement strings. -/
+theorem subGo_all (P : Nat → Prop) (n : Nat) (re : Re) (f : Str → Str)
+    (hf : ∀ m, ∀ c ∈ f m, P c) (s : Str) (k : Nat) (hs : ∀ c ∈ s, P c) :
+    ∀ c ∈ subGo n re f s k, P c := by
+  fun_induction subGo n re f s k <;> simp_all [List.mem_append] <;> grind
+
+theorem sub_all (P : Nat → Prop) (re : Re) (f : Str → Str)
+    (hf : ∀ m, ∀ c ∈ f m, P c) (s : Str) (hs : ∀ c ∈ s, P c) : ∀ c ∈ sub re f s, P c :=
+  subGo_all P _ re f hf s 0 hs
+
+theorem take_ne_nil {α} (l : List α) (k : Nat) (hk : 0 < k) (hl : l ≠ []) : l.take k ≠ [] := by
+  cases l with
+  | nil => exact absurd rfl hl
+  | cons a t => cases k with
+    | zero => omega
+    | succ k => simp
+
+/-- `sub` of a non-empty subject is non-empty when non-empty matches have non-empty replacements. -/
+theorem subGo_ne_nil (n : Nat) (re : Re) (f : Str → Str)
+    (hf : ∀ m, m ≠ [] → f m ≠ []) (c : Nat) (t : Str) :
+    subGo n re f (c :: t) 0 ≠ [] := by
+  unfold subGo
+  simp only
+  split
+  · simp
+  · rename_i r rest hrs
+    split
+    · rename_i hlt
+      have : (c :: t).take ((c :: t).length - r.length) ≠ [] := take_ne_nil _ _ (by omega) (by simp)
+      have := hf _ this
+      simp_all
+    · split
+      · simp
+      · rename_i r2 hfind
+        have hlt := List.find?_some hfind
+        simp only [decide_eq_true_eq] at hlt
+        have : (c :: t).take ((c :: t).length - r2.length) ≠ [] := take_ne_nil _ _ (by omega) (by simp)
+        have := hf _ this
+        simp_all
+
+theorem sub_ne_nil (re : Re) (f : Str → Str) (hf : ∀ m, m ≠ [] → f m ≠ []) (s : Str) (hs : s ≠ []) :
+    sub re f s ≠ [] := by
+  cases s with
+  | nil => exact absurd rfl hs
+  | cons c t => exact subGo_ne_nil _ re f hf c t
+
+/-- Nothing to replace: `sub` is the identity. -/
+theorem subGo_id_of_matchesNowhere (n : Nat) (re : Re) (f : Str → Str) (s : Str)
+    (h : matchesNowhere n re s = true) : subGo n re f s 0 = s := by
+  induction s with
+  | nil => simp [matchesNowhere] at h; simp [subGo, h]
+  | cons c t ih =>
+    simp only [matchesNowhere, Bool.and_eq_true, List.isEmpty_iff] at h
+    unfold subGo
+    simp [h.1, ih h.2]
+
+theorem sub_id_of_matchesNowhere (re : Re) (f : Str → Str) (s : Str)
+    (h : matchesNowhere s.length re s = true) : sub re f s = s :=
+  subGo_id_of_matchesNowhere _ re f s h
+
+theorem matchesStart_of_matchesNowhere (re : Re) (s : Str)
+    (h : matchesNowhere s.length re s = true) : matchesStart re s = false := by
+  unfold matchesStart
+  cases s with
+  | nil => simp [matchesNowhere] at h; simp [h]
+  | cons c t => simp only [matchesNowhere, Bool.and_eq_true] at h; rw [h.1]; rfl
+
+/-! ### the shape `[K]+` -/
+
+theorem matchR_rep (n mn : Nat) (mo : Option Nat) (r : Re) (s : Str) :
+    matchR n (.rep mn mo r) s = repAux (fun s' => matchR n r s') (mn + s.length + 1) mn mo s := by
+  rw [matchR]
+
+/-- all stopping points of a greedy run of `K`-characters, longest first -/
+def stops (K : Cls) : Str → List Str
+  | [] => [[]]
+  | c :: t => if K.mem c then stops K t ++ [c :: t] else [c :: t]
+
+theorem stops_ne_nil (K : Cls) (s : Str) : stops K s ≠ [] := by
+  cases s with
+  | nil => simp [stops]
+  | cons c t => simp only [stops]; split <;> simp
+
+theorem stops_length (K : Cls) (s : Str) : ∀ r ∈ stops K s, r.length ≤ s.length := by
+  induction s with
+  | nil => simp [stops]
+  | cons c t ih =>
+    simp only [stops]
+    split
+    · intro r hr
+      simp only [List.mem_append, List.mem_singleton] at hr
+      rcases hr with hr | hr
+      · have := ih r hr; simp; omega
+      · subst hr; simp
+    · simp
+
+def clsStep (K : Cls) : Str → List Str
+  | [] => []
+  | c :: t => if K.mem c then [t] else []
+
+theorem matchR_chr_eq (n : Nat) (K : Cls) : (fun s' => matchR n (.chr K) s') = clsStep K := by
+  funext s'; cases s' <;> simp [matchR, clsStep]
+
+theorem repAux_cls_opt (K : Cls) (fuel : Nat) (s : Str) (h : s.length < fuel) :
+    repAux (clsStep K) fuel 0 none s = stops K s := by
+  induction fuel generalizing s with
+  | zero => omega
+  | succ fuel ih =>
+    cases s with
+    | nil => simp [repAux, clsStep, stops]
+    | cons c t =>
+      simp only [List.length_cons] at h
+      have iht := ih t (by omega)
+      cases hc : K.mem c <;> simp [repAux, clsStep, stops, hc, iht]
+
+/-- `[K]+` at a position: nothing unless the first character is in `K`, else the greedy run. -/
+theorem matchR_plusCls (n : Nat) (K : Cls) (s : Str) :
+    matchR n (.rep 1 none (.chr K)) s =
+      match s with
+      | [] => []
+      | c :: t => if K.mem c then stops K t else [] := by
+  rw [matchR_rep, matchR_chr_eq]
+  cases s with
+  | nil => simp [repAux, clsStep]
+  | cons c t =>
+    have e : 1 + (c :: t).length + 1 = (t.length + 2) + 1 := by simp only [List.length_cons]; omega
+    rw [e, repAux]
+    have := repAux_cls_opt K (t.length + 2) t (by omega)
+    cases hc : K.mem c <;> simp [clsStep, hc, this]
+
+/-- After `sub([K]+, f)` every character is a non-`K` character of the subject or comes from `f`. -/
+theorem subGo_plusCls_all (P : Nat → Prop) (n : Nat) (K : Cls) (f : Str → Str)
+    (hf : ∀ m, ∀ c ∈ f m, P c) (hK : ∀ c, K.mem c = false → P c) (s : Str) (k : Nat) :
+    ∀ c ∈ subGo n (.rep 1 none (.chr K)) f s k, P c := by
+  induction s generalizing k with
+  | nil => simp [subGo, matchR_plusCls]
+  | cons c t ih =>
+    cases k with
+    | succ k => simpa [subGo] using ih k
+    | zero =>
+      unfold subGo
+      simp only [matchR_plusCls]
+      cases hc : K.mem c with
+      | false =>
+        simp only [Bool.false_eq_true, if_false]
+        intro x hx
+        simp only [List.mem_cons] at hx
+        rcases hx with rfl | hx
+        · exact hK _ hc
+        · exact ih 0 x hx
+      | true =>
+        simp only [if_true]
+        split
+        · rename_i heq; exact absurd heq (stops_ne_nil K t)
+        · rename_i r rest heq
+          have hr : r.length ≤ t.length := stops_length K t r (by rw [heq]; simp)
+          have hlt : r.length < (c :: t).length := by simp; omega
+          simp only [hlt, if_true]
+          intro x hx
+          simp only [List.mem_append] at hx
+          rcases hx with hx | hx
+          · exact hf _ x hx
+          · exact ih _ x hx
+
+theorem sub_plusCls_all (P : Nat → Prop) (K : Cls) (f : Str → Str)
+    (hf : ∀ m, ∀ c ∈ f m, P c) (hK : ∀ c, K.mem c = false → P c) (s : Str) :
+    ∀ c ∈ sub (.rep 1 none (.chr K)) f s, P c :=
+  subGo_plusCls_all P _ K f hf hK s 0
+
+/-! ### the shape `^[K]{1}` -/
+
+theorem matchR_bol_cls1 (K : Cls) (c : Nat) (t : Str) :
+    matchR (c :: t).length (.seq .bol (.rep 1 (some 0) (.chr K))) (c :: t) = if K.mem c then [t] else [] := by
+  have e : 1 + (c :: t).length + 1 = (t.length + 2) + 1 := by simp only [List.length_cons]; omega
+  rw [matchR, matchR]
+  simp only [if_true, List.flatMap_cons, List.flatMap_nil, List.append_nil]
+  rw [matchR_rep, e, repAux]
+  rw [matchR]
+  cases hc : K.mem c <;> simp [repAux]
+
+theorem matchesStart_bol_cls1 (K : Cls) (c : Nat) (t : Str) :
+    matchesStart (.seq .bol (.rep 1 (some 0) (.chr K))) (c :: t) = K.mem c := by
+  unfold matchesStart
+  rw [matchR_bol_cls1]
+  cases K.mem c <;> simp
+
+/-! ### first-character analysis -/
+
+/-- on a subject starting with `c`, every match of the pattern is empty (or there is none) -/
+def eo (c : Nat) : Re → Bool
+  | .eps | .bol | .eol | .eos => true
+  | .chr k => !k.mem c
+  | .seq a b => eo c a && eo c b
+  | .alt a b => eo c a && eo c b
+  | .rep _ _ r => eo c r
+
+/-- on a subject starting with `c` the pattern cannot match (a sufficient syntactic condition) -/
+def rej (c : Nat) : Re → Bool
+  | .eps | .bol | .eol | .eos => false
+  | .chr k => !k.mem c
+  | .seq a b => rej c a || (eo c a && rej c b)
+  | .alt a b => rej c a && rej c b
+  | .rep min _ r => decide (0 < min) && rej c r
+
+theorem repAux_eo (step : Str → List Str) (s : Str) (h : ∀ x ∈ step s, x = s) (fuel min : Nat) (more : Option Nat) :
+    ∀ x ∈ repAux step fuel min more s, x = s := by
+  induction fuel generalizing min more with
+  | zero => simp [repAux]
+  | succ fuel ih =>
+    cases min with
+    | succ min =>
+      simp only [repAux, List.mem_flatMap]
+      rintro x ⟨y, hy, hx⟩
+      rw [h y hy] at hx
+      exact ih _ _ x hx
+    | zero =>
+      simp only [repAux, List.mem_append, List.mem_singleton]
+      rintro x (hx | hx)
+      · split at hx
+        · cases hx
+        · simp only [List.mem_flatMap] at hx
+          obtain ⟨y, hy, hx⟩ := hx
+          rw [h y hy] at hx
+          simpa using hx
+      · exact hx
+
+theorem eo_sound (c : Nat) (re : Re) (h : eo c re = true) (n : Nat) (t : Str) :
+    ∀ x ∈ matchR n re (c :: t), x = c :: t := by
+  induction re with
+  | eps => simp [matchR]
+  | chr k => simp only [eo, Bool.not_eq_true'] at h; simp [matchR, h]
+  | bol => simp only [matchR]; split <;> simp
+  | eol => simp only [matchR]; split <;> simp
+  | eos => simp [matchR]
+  | seq a b iha ihb =>
+    simp only [eo, Bool.and_eq_true] at h
+    simp only [matchR, List.mem_flatMap]
+    rintro x ⟨y, hy, hx⟩
+    rw [iha h.1 y hy] at hx
+    exact ihb h.2 x hx
+  | alt a b iha ihb =>
+    simp only [eo, Bool.and_eq_true] at h
+    simp only [matchR, List.mem_append]
+    rintro x (hx | hx)
+    · exact iha h.1 x hx
+    · exact ihb h.2 x hx
+  | rep mn mo r ih =>
+    simp only [eo] at h
+    rw [matchR_rep]
+    exact repAux_eo _ _ (ih h) _ _ _
+
+theorem rej_sound (c : Nat) (re : Re) (h : rej c re = true) (n : Nat) (t : Str) :
+    matchR n re (c :: t) = [] := by
+  induction re with
+  | eps | bol | eol | eos => simp [rej] at h
+  | chr k => simp only [rej, Bool.not_eq_true'] at h; simp [matchR, h]
+  | seq a b iha ihb =>
+    simp only [rej, Bool.or_eq_true, Bool.and_eq_true] at h
+    simp only [matchR]
+    rcases h with h | ⟨h1, h2⟩
+    · simp [iha h]
+    · rw [List.flatMap_eq_nil_iff]
+      intro y hy
+      rw [eo_sound c a h1 n t y hy]
+      exact ihb h2
+  | alt a b iha ihb =>
+    simp only [rej, Bool.and_eq_true] at h
+    simp [matchR, iha h.1, ihb h.2]
+  | rep mn mo r ih =>
+    simp only [rej, Bool.and_eq_true, decide_eq_true_eq] at h
+    rw [matchR_rep]
+    obtain ⟨k, rfl⟩ : ∃ k, mn = k + 1 := ⟨mn - 1, by omega⟩
+    have e : k + 1 + (c :: t).length + 1 = (k + (c :: t).length + 1) + 1 := by omega
+    rw [e, repAux, ih h.2]
+    simp
+
+/-! ### two-character shapes, classes inside `_A-Z` -/
+
+theorem matchR_2cls_rej (n : Nat) (A B : Cls) (a b : Nat) (t : Str) (h : B.mem b = false) :
+    matchR n (.seq (.chr A) (.chr B)) (a :: b :: t) = [] := by
+  simp only [matchR]
+  cases A.mem a <;> simp [h]
+
+theorem matchR_2cls_short (n : Nat) (A B : Cls) (a : Nat) :
+    matchR n (.seq (.chr A) (.chr B)) [a] = [] := by
+  simp only [matchR]
+  cases A.mem a <;> simp
+
+theorem matchR_rep2_rej (n : Nat) (A : Cls) (mo : Option Nat) (a b : Nat) (t : Str) (h : A.mem b = false) :
+    matchR n (.rep 2 mo (.chr A)) (a :: b :: t) = [] := by
+  rw [matchR_rep, matchR_chr_eq]
+  have e : 2 + (a :: b :: t).length + 1 = (t.length + 3) + 1 + 1 := by simp only [List.length_cons]; omega
+  rw [e, repAux]
+  cases A.mem a <;> simp [clsStep, repAux, h]
+
+theorem matchR_rep2_short (n : Nat) (A : Cls) (mo : Option Nat) (a : Nat) :
+    matchR n (.rep 2 mo (.chr A)) [a] = [] := by
+  rw [matchR_rep, matchR_chr_eq]
+  have e : 2 + [a].length + 1 = 2 + 1 + 1 := by simp
+  rw [e, repAux]
+  cases A.mem a <;> simp [clsStep, repAux]
+
+
+/-- every member of the class is `_` or an upper-case ASCII letter (syntactic) -/
+def clsSubUU (K : Cls) : Bool :=
+  !K.neg && K.ranges.all (fun p => (decide (65 ≤ p.1) && decide (p.2 ≤ 90)) || (p.1 == 95 && p.2 == 95))
+
+theorem clsSubUU_sound (K : Cls) (h : clsSubUU K = true) (c : Nat) (hc : K.mem c = true) :
+    c = 95 ∨ (65 ≤ c ∧ c ≤ 90) := by
+  obtain ⟨neg, ranges⟩ := K
+  simp only [clsSubUU, Bool.and_eq_true, Bool.not_eq_true', List.all_eq_true] at h
+  obtain ⟨hn, hr⟩ := h
+  subst hn
+  simp only [Cls.mem, Bool.false_bne] at hc
+  induction ranges with
+  | nil => simp [inRanges] at hc
+  | cons p rest ih =>
+    obtain ⟨lo, hi⟩ := p
+    simp only [inRanges, Bool.or_eq_true, Bool.and_eq_true, decide_eq_true_eq] at hc
+    rcases hc with ⟨h1, h2⟩ | hc
+    · have := hr (lo, hi) (by simp)
+      simp only [Bool.or_eq_true, Bool.and_eq_true, decide_eq_true_eq, beq_iff_eq] at this
+      omega
+    · exact ih (fun q hq => hr q (by simp [hq])) hc
+
+/-! ### fuel -/
+
+theorem flatMap_congr' {α β} (l : List α) (f g : α → List β) (h : ∀ x ∈ l, f x = g x) : l.flatMap f = l.flatMap g := by
+  induction l with
+  | nil => rfl
+  | cons a t ih => simp [List.flatMap_cons, h a (by simp), ih (fun x hx => h x (by simp [hx]))]
+
+theorem repAux_length (step : Str → List Str) (hstep : ∀ s, ∀ x ∈ step s, x.length ≤ s.length)
+    (fuel min : Nat) (more : Option Nat) (s : Str) : ∀ x ∈ repAux step fuel min more s, x.length ≤ s.length := by
+  induction fuel generalizing min more s with
+  | zero => simp [repAux]
+  | succ fuel ih =>
+    cases min with
+    | succ min =>
+      simp only [repAux, List.mem_flatMap]
+      rintro x ⟨y, hy, hx⟩
+      exact Nat.le_trans (ih _ _ _ x hx) (hstep s y hy)
+    | zero =>
+      simp only [repAux, List.mem_append, List.mem_singleton]
+      rintro x (hx | rfl)
+      · split at hx
+        · cases hx
+        · simp only [List.mem_flatMap] at hx
+          obtain ⟨y, hy, hx⟩ := hx
+          split at hx
+          · exact Nat.le_trans (ih _ _ _ x hx) (hstep s y hy)
+          · simp only [List.mem_singleton] at hx; subst hx; exact hstep s x hy
+      · exact Nat.le_refl _
+
+/-- every remainder the matcher reports is no longer than the subject -/
+theorem matchR_length (n : Nat) (re : Re) (s : Str) : ∀ x ∈ matchR n re s, x.length ≤ s.length := by
+  induction re generalizing s with
+  | eps => simp [matchR]
+  | chr k => cases s with
+    | nil => simp [matchR]
+    | cons c t => simp only [matchR]; split <;> simp
+  | bol => simp only [matchR]; split <;> simp
+  | eol => simp only [matchR]; split <;> simp
+  | eos => simp only [matchR]; split <;> simp
+  | seq a b iha ihb =>
+    simp only [matchR, List.mem_flatMap]
+    rintro x ⟨y, hy, hx⟩
+    exact Nat.le_trans (ihb y x hx) (iha s y hy)
+  | alt a b iha ihb =>
+    simp only [matchR, List.mem_append]
+    rintro x (hx | hx)
+    · exact iha s x hx
+    · exact ihb s x hx
+  | rep mn mo r ih =>
+    rw [matchR_rep]
+    exact repAux_length _ (fun s x hx => ih s x hx) _ _ _ _
+
+/-- the fuel `min + |s| + 1` that `matchR` hands to `repAux` is enough: more fuel changes nothing -/
+theorem repAux_fuel (step : Str → List Str) (hstep : ∀ s, ∀ x ∈ step s, x.length ≤ s.length)
+    (f1 f2 min : Nat) (more : Option Nat) (s : Str) (h1 : min + s.length < f1) (h2 : min + s.length < f2) :
+    repAux step f1 min more s = repAux step f2 min more s := by
+  induction f1 generalizing f2 min more s with
+  | zero => omega
+  | succ k1 ih =>
+    obtain ⟨k2, rfl⟩ : ∃ k2, f2 = k2 + 1 := ⟨f2 - 1, by omega⟩
+    cases min with
+    | succ m =>
+      simp only [repAux]
+      apply flatMap_congr'
+      intro y hy
+      have := hstep s y hy
+      exact ih _ _ _ _ (by omega) (by omega)
+    | zero =>
+      simp only [repAux]
+      congr 1
+      split
+      · rfl
+      · apply flatMap_congr'
+        intro y hy
+        split
+        · exact ih _ _ _ _ (by omega) (by omega)
+        · rfl
 
 end NunavutVerif.Regex
